@@ -241,11 +241,148 @@ def alias_cycle(rng, m):
     return 'aliases that refer to each other'
 
 
+# ---- doc references (lang_ref "Documentation": :field:, :type:, :route:, :link:, :val: must be well formed
+# and resolve).  The compiler validates the docs of user types, their fields / tags and routes.
+
+def _all_field_names(ns, t, kind):
+    """names of the fields / tags of a struct / union, inherited ones included"""
+    by = dict((x['name'], x) for x in ns[kind])
+    out = []
+    seen = set()
+    while t is not None and t['name'] not in seen:
+        seen.add(t['name'])
+        out += [f['name'] for f in t['fields' if kind == 'structs' else 'tags']]
+        t = by.get(t['parent']) if t.get('parent') else None
+    return out
+
+
+def _doc_sites(ns):
+    """(holder of a 'doc', owning type or None, 'structs' / 'unions' / None)"""
+    sites = []
+    for s in ns['structs']:
+        sites.append((s, s, 'structs'))
+        sites += [(f, s, 'structs') for f in s['fields']]
+    for u in ns['unions']:
+        sites.append((u, u, 'unions'))
+        sites += [(t, u, 'unions') for t in u['tags']]
+    sites += [(r, None, None) for r in ns['routes']]
+    return sites
+
+
+def _names_in_scope(m, ns):
+    out = set()
+    for k in ('structs', 'unions', 'aliases', 'routes'):
+        out.update(x['name'] for x in ns[k])
+    out.update(n['name'] for n in m['namespaces'])
+    return out
+
+
+def doc_ref_unknown_field(rng, m):
+    """an unqualified :field: reference names a field the enclosing type does not have.  Context variation: the
+    very same docstring also sits, validly, on other types of the namespace that do have the field (before
+    and after the offending one)"""
+    cands = [ns for ns in m['namespaces'] if ns['structs'] or ns['unions']]
+    if not cands:
+        return None
+    ns = rng.choice(cands)
+    sites = [x for x in _doc_sites(ns) if x[1] is not None]
+    holder, owner, kind = rng.choice(sites)
+    own = set(_all_field_names(ns, owner, kind))
+    donors = []
+    for k in ('structs', 'unions'):
+        for t in ns[k]:
+            if t is not owner:
+                for n in _all_field_names(ns, t, k):
+                    if n not in own:
+                        donors.append((t, k, n))
+    if donors and rng.random() < 0.6:
+        t, k, n = rng.choice(donors)
+        doc = 'See :field:`%s`.' % n
+        # valid on the donor (type doc and / or one of its own field docs), invalid on `holder`
+        if rng.random() < 0.7:
+            t['doc'] = doc
+        own_sites = t['fields' if k == 'structs' else 'tags']
+        if own_sites and rng.random() < 0.5:
+            rng.choice(own_sites)['doc'] = doc
+        holder['doc'] = doc
+    else:
+        holder['doc'] = 'See :field:`nosuch_field_zz`.'
+    return 'a doc reference to a field the type does not have'
+
+
+def doc_ref_unknown_type(rng, m):
+    ns = _ns(rng, m)
+    sites = _doc_sites(ns)
+    if not sites:
+        return None
+    holder = rng.choice(sites)[0]
+    kind = rng.choice(['type', 'qualfield', 'alias', 'route_as_type'])
+    if kind == 'alias' and ns['aliases']:
+        holder['doc'] = 'An :type:`%s`.' % rng.choice(ns['aliases'])['name']     # not a struct or union
+    elif kind == 'route_as_type' and ns['routes']:
+        holder['doc'] = 'An :type:`%s`.' % rng.choice(ns['routes'])['name']
+    elif kind == 'qualfield':
+        holder['doc'] = 'See :field:`NoSuchTypeZz.f`.'
+    else:
+        holder['doc'] = 'See :type:`NoSuchTypeZz`.'
+    return 'a doc reference to an undefined type (or to something that is not a struct or union)'
+
+
+def doc_ref_unknown_route(rng, m):
+    ns = _ns(rng, m)
+    sites = _doc_sites(ns)
+    if not sites:
+        return None
+    holder = rng.choice(sites)[0]
+    if ns['routes'] and rng.random() < 0.5:
+        r = rng.choice(ns['routes'])
+        v = max(x['version'] for x in ns['routes'] if x['name'] == r['name']) + 1
+        holder['doc'] = 'See :route:`%s:%d`.' % (r['name'], v)                       # undefined version
+    elif ns['structs'] and rng.random() < 0.5:
+        holder['doc'] = 'See :route:`%s`.' % rng.choice(ns['structs'])['name']       # a type is not a route
+    else:
+        holder['doc'] = 'See :route:`no_such_route_zz`.'
+    return 'a doc reference to an undefined route or route version'
+
+
+def doc_ref_malformed(rng, m):
+    ns = _ns(rng, m)
+    sites = _doc_sites(ns)
+    if not sites:
+        return None
+    rng.choice(sites)[0]['doc'] = rng.choice(['A :link:`nospace`.', 'A :val:`not a value`.', 'A :bogus:`x`.',
+                                              'See :type:`nosuchns_zz.T`.', 'See :route:`nosuchns_zz.r`.'])
+    return 'a malformed doc reference (link without title, bad value, unknown tag, unknown namespace)'
+
+
+def decorate_with_valid_doc_refs(rng, m):
+    """legal context: put resolvable references into some docs (must never make a legal spec refused)"""
+    for ns in m['namespaces']:
+        for holder, owner, kind in _doc_sites(ns):
+            if rng.random() < 0.3:
+                refs = ['a :val:`null` and :val:`true`', 'a :link:`Title here http://example.com/x`']
+                if owner is not None:
+                    names = _all_field_names(ns, owner, kind)
+                    if names:
+                        refs.append(':field:`%s`' % rng.choice(names))
+                    refs.append(':type:`%s`' % owner['name'])
+                for k in ('structs', 'unions'):
+                    for t in ns[k]:
+                        names = _all_field_names(ns, t, k)
+                        if names:
+                            refs.append(':field:`%s.%s`' % (t['name'], rng.choice(names)))
+                        refs.append(':type:`%s`' % t['name'])
+                for r in ns['routes']:
+                    refs.append(':route:`%s`' % (r['name'] if r['version'] == 1 else '%s:%d' % (r['name'], r['version'])))
+                holder['doc'] = 'See %s.' % rng.choice(refs)
+
+
 CATALOGUE = [undefined_type, duplicate_type_name, duplicate_field, field_clashes_with_inherited, duplicate_tag,
              tag_clashes_with_parent, struct_extends_union, union_extends_struct, extends_undefined, closed_extends_open,
              inheritance_cycle, default_of_wrong_kind, default_out_of_bounds, void_field, bad_type_argument,
              list_bounds_inverted, missing_import, import_undefined_namespace, duplicate_route, route_undefined_type,
-             route_unknown_attribute, route_attribute_wrong_kind, name_clash_route_type, alias_cycle]
+             route_unknown_attribute, route_attribute_wrong_kind, name_clash_route_type, alias_cycle,
+             doc_ref_unknown_field, doc_ref_unknown_type, doc_ref_unknown_route, doc_ref_malformed]
 
 
 class Case(list):
@@ -259,6 +396,8 @@ def build_case(model, seed, rule_index):
     rng = random.Random(seed)
     m = copy.deepcopy(model)
     rule = None
+    if rng.random() < 0.5:
+        decorate_with_valid_doc_refs(rng, m)
     if rule_index is not None:
         rule = CATALOGUE[rule_index](rng, m)
     c = Case(MG.build_specs(m, seed))
